@@ -154,6 +154,14 @@ claim("C09", "other",
       "symbolic execution of the real evolve drivers with identity compression stubs; polynomial identities via normal form + z3",
       "DESIGN.md section 1, C09")
 
+claim("C10", "other",
+      "Imaginary-time propagation-and-compression steps (Taylor, RK4, general RK) of Mps and MpDm with symbolic tau = integrator image before normalisation; normalize() kinds; "
+      "Mpo.exact_propagator with symbolic x and shift (exp uninterpreted): site tensors, scalar placement, labels; Mps/MpDm.evolve_exact with symbolic prefactor, time step and "
+      "non-zero symbolic energy offset: the offset phase cancels (only cos^2+sin^2=1 used), result carries it, input untouched; MpDm.max_entangled_gs.",
+      "NOT covered: convergence of many imaginary-time steps to the Gibbs state, ThermalProp averages (float iteration limits). canonicalise/compress identity stubs (C04/C05).",
+      "symbolic execution with uninterpreted exp/cos/sin and a stated trigonometric lemma + z3",
+      "DESIGN.md section 1, C10")
+
 for pid in ["C%02d" % i for i in range(1, 21)]:
     if pid not in CHECKS:
         NA[pid] = "check not built yet (build in progress; see DESIGN.md)"
